@@ -139,11 +139,99 @@ fn obs_int(s: String) -> Value {
     o
 }
 
+// ------------------------------------------------------------------ the three public entry points of a conversion
+/// 0: `T::try_from(token)`, 1: `Parameters::next_data::<T>()`, 2: `Parameters::next_optional_data::<T>()`
+/// (the last two inside a handler reached through `Node::run` on `X <literal>`); rows rotate through them
+pub const VIAS: [&str; 3] = ["try_from", "next_data", "next_optional_data"];
+static VIA_COUNTER: std::sync::atomic::AtomicUsize = std::sync::atomic::AtomicUsize::new(0);
+pub fn next_via() -> usize {
+    VIA_COUNTER.fetch_add(1, std::sync::atomic::Ordering::Relaxed) % 3
+}
+struct ViaDev<T> {
+    got: Option<std::result::Result<Option<T>, Error>>,
+}
+impl<T> scpi::Device for ViaDev<T> {
+    fn handle_error(&mut self, _e: Error) {}
+}
+struct ViaH<T>(usize, std::marker::PhantomData<T>);
+impl<T> scpi::tree::prelude::Command<ViaDev<T>> for ViaH<T>
+where
+    T: for<'a> TryFrom<Token<'a>, Error = Error>,
+{
+    fn event(&self, d: &mut ViaDev<T>, _c: &mut scpi::Context, mut p: scpi::tree::prelude::Parameters) -> scpi::error::Result<()> {
+        d.got = Some(if self.0 == 1 { p.next_data::<T>().map(Some) } else { p.next_optional_data::<T>() });
+        Ok(())
+    }
+}
+/// the conversion of the single data element `lit` to T through entry point `via`
+pub fn convert_via<T>(lit: &[u8], tok: Token, via: usize) -> std::result::Result<T, Error>
+where
+    T: for<'a> TryFrom<Token<'a>, Error = Error>,
+{
+    if via == 0 {
+        return T::try_from(tok);
+    }
+    let h = ViaH::<T>(via, std::marker::PhantomData);
+    let sub = [scpi::tree::Node::leaf(b"X", &h)];
+    let root = scpi::tree::Node::Branch { name: b"", default: false, sub: &sub };
+    let mut msg = b"X ".to_vec();
+    msg.extend_from_slice(lit);
+    let mut dev = ViaDev::<T> { got: None };
+    let mut buf: Vec<u8> = Vec::new();
+    let _ = root.run(&msg, &mut dev, &mut scpi::Context::default(), &mut buf);
+    match dev.got {
+        Some(Ok(Some(v))) => Ok(v),
+        Some(Ok(None)) => Err(Error::custom(31000, b"entry point reported the element as absent")),
+        Some(Err(e)) => Err(e),
+        None => Err(Error::custom(31001, b"handler not reached")),
+    }
+}
+
 pub fn first_token(lit: &[u8]) -> Option<Token<'_>> {
     match Tokenizer::new_params(lit).next() {
         Some(Ok(t)) if t.is_data() => Some(t),
         _ => None,
     }
+}
+
+/// [+-] (digits [. [digits]] | . digits) [E [+-] digits] and nothing else (IEEE 488.2 NRf, no white space)
+pub fn is_nrf(lit: &[u8]) -> bool {
+    let mut i = 0;
+    let n = lit.len();
+    if i < n && (lit[i] == b'+' || lit[i] == b'-') {
+        i += 1;
+    }
+    let d0 = i;
+    while i < n && lit[i].is_ascii_digit() {
+        i += 1;
+    }
+    let ip = i - d0;
+    let mut fp = 0;
+    if i < n && lit[i] == b'.' {
+        i += 1;
+        let f0 = i;
+        while i < n && lit[i].is_ascii_digit() {
+            i += 1;
+        }
+        fp = i - f0;
+    }
+    if ip + fp == 0 {
+        return false;
+    }
+    if i < n && (lit[i] == b'E' || lit[i] == b'e') {
+        i += 1;
+        if i < n && (lit[i] == b'+' || lit[i] == b'-') {
+            i += 1;
+        }
+        let e0 = i;
+        while i < n && lit[i].is_ascii_digit() {
+            i += 1;
+        }
+        if i == e0 {
+            return false;
+        }
+    }
+    i == n
 }
 
 pub fn kind_of(t: &Token) -> (&'static str, Vec<i64>) {
@@ -171,7 +259,8 @@ fn lit_of<'a>(t: &Token<'a>, whole: &'a [u8]) -> &'a [u8] {
 macro_rules! int_row {
     ($ty:ty, $name:expr, $tok:expr, $lit:expr, $out:expr) => {{
         let t = $tok;
-        let r = catch(std::panic::AssertUnwindSafe(|| <$ty>::try_from(t)));
+        let via = next_via();
+        let r = catch(std::panic::AssertUnwindSafe(|| convert_via::<$ty>($lit, t, via)));
         let obs = match r {
             Err(_) => obs_panic(),
             Ok(Ok(v)) => obs_int(format!("{v}")),
@@ -179,7 +268,7 @@ macro_rules! int_row {
         };
         let (kind, val) = kind_of(&t);
         $out.put(&json!({"t": "int", "ty": $name, "kind": kind, "lit": bytes_json(lit_of(&t, $lit)), "val": val,
-                         "src": lossy($lit), "obs": obs}));
+                         "src": lossy($lit), "obs": obs, "via": VIAS[via]}));
     }};
 }
 
@@ -188,6 +277,15 @@ fn int_rows_for(lit: &[u8], types: &[&str], out: &mut Out) {
         // a non-decimal literal the lexer itself refuses (too wide for its u64): the conversion's
         // result for every type is that error; the specification works out the value from the text
         let radix = match lit.get(1) { Some(b'H' | b'h') => 16, Some(b'Q' | b'q') => 8, Some(b'B' | b'b') => 2, _ => 0 };
+        if is_nrf(lit) {
+            // a decimal literal of NRf shape that the lexer refuses: the conversion's result is that error
+            if let Some(Err(e)) = Tokenizer::new_params(lit).next() {
+                for ty in types {
+                    out.put(&json!({"t": "int", "ty": ty, "kind": "num", "lit": bytes_json(lit), "val": [],
+                                    "src": lossy(lit), "obs": obs_err(&Error::from(e)), "via": "lexer"}));
+                }
+            }
+        }
         if lit.len() >= 3 && lit[0] == b'#' && radix != 0 && lit[2..].iter().all(|c| (*c as char).to_digit(radix).is_some()) {
             if let Some(Err(e)) = Tokenizer::new_params(lit).next() {
                 for ty in types {
@@ -381,34 +479,47 @@ fn obs_float(cls_info: FInfo, ismax: bool, ismin: bool) -> Value {
 }
 
 fn float_rows_for(lit: &[u8], out: &mut Out) {
-    let Some(t) = first_token(lit) else { return };
+    let Some(t) = first_token(lit) else {
+        if is_nrf(lit) {
+            if let Some(Err(e)) = Tokenizer::new_params(lit).next() {
+                for w in [32, 64] {
+                    out.put(&json!({"t": "flt", "w": w, "kind": "num", "lit": bytes_json(lit), "src": lossy(lit), "obs": obs_err(&Error::from(e)), "via": "lexer"}));
+                }
+                out.put(&json!({"t": "bool", "kind": "num", "lit": bytes_json(lit), "src": lossy(lit), "obs": obs_err(&Error::from(e)), "via": "lexer"}));
+            }
+        }
+        return;
+    };
     let (kind, _) = kind_of(&t);
-    let r32 = catch(std::panic::AssertUnwindSafe(|| f32::try_from(t)));
+    let via = next_via();
+    let r32 = catch(std::panic::AssertUnwindSafe(|| convert_via::<f32>(lit, t, via)));
     let o32 = match r32 {
         Err(_) => obs_panic(),
         Ok(Ok(x)) => obs_float(finfo32(x), x == f32::MAX, x == f32::MIN),
         Ok(Err(e)) => obs_err(&e),
     };
-    out.put(&json!({"t": "flt", "w": 32, "kind": kind, "lit": bytes_json(lit_of(&t, lit)), "src": lossy(lit), "obs": o32}));
-    let r64 = catch(std::panic::AssertUnwindSafe(|| f64::try_from(t)));
+    out.put(&json!({"t": "flt", "w": 32, "kind": kind, "lit": bytes_json(lit_of(&t, lit)), "src": lossy(lit), "obs": o32, "via": VIAS[via]}));
+    let via = next_via();
+    let r64 = catch(std::panic::AssertUnwindSafe(|| convert_via::<f64>(lit, t, via)));
     let o64 = match r64 {
         Err(_) => obs_panic(),
         Ok(Ok(x)) => obs_float(finfo64(x), x == f64::MAX, x == f64::MIN),
         Ok(Err(e)) => obs_err(&e),
     };
-    out.put(&json!({"t": "flt", "w": 64, "kind": kind, "lit": bytes_json(lit_of(&t, lit)), "src": lossy(lit), "obs": o64}));
+    out.put(&json!({"t": "flt", "w": 64, "kind": kind, "lit": bytes_json(lit_of(&t, lit)), "src": lossy(lit), "obs": o64, "via": VIAS[via]}));
 }
 
 fn bool_row(lit: &[u8], out: &mut Out) {
     let Some(t) = first_token(lit) else { return };
     let (kind, _) = kind_of(&t);
-    let r = catch(std::panic::AssertUnwindSafe(|| bool::try_from(t)));
+    let via = next_via();
+    let r = catch(std::panic::AssertUnwindSafe(|| convert_via::<bool>(lit, t, via)));
     let obs = match r {
         Err(_) => obs_panic(),
         Ok(Ok(b)) => obs_int(if b { "1".into() } else { "0".into() }),
         Ok(Err(e)) => obs_err(&e),
     };
-    out.put(&json!({"t": "bool", "kind": kind, "lit": bytes_json(lit_of(&t, lit)), "src": lossy(lit), "obs": obs}));
+    out.put(&json!({"t": "bool", "kind": kind, "lit": bytes_json(lit_of(&t, lit)), "src": lossy(lit), "obs": obs, "via": VIAS[via]}));
 }
 
 fn acc_rows(lit: &[u8], out: &mut Out) {
@@ -528,7 +639,8 @@ pub fn rows_c08(args: &[String]) -> i32 {
             }
         }
     }
-    for z in ["0", "0.0", "-0", "+0", "0e0", ".0", "0.", "-0.0", "1e-400", "-1e-400", "1e400", "-1e400", "1e39", "3.5e38", "3.4028235e38", "3.4028236e38",
+    for z in ["-.5", "+.5", "-.25e3", "+.125E-2", "-.0", "+.0", "-5.", "+5.", "5.e2", "-5.E-1", "00012.50", "-0001.", "+000.5", "1.e0", ".5e+1",
+              "0", "0.0", "-0", "+0", "0e0", ".0", "0.", "-0.0", "1e-400", "-1e-400", "1e400", "-1e400", "1e39", "3.5e38", "3.4028235e38", "3.4028236e38",
               "1.8e308", "1.7976931348623157e308", "1.7976931348623159e308", "4.9e-324", "2.4e-324", "2.5e-324", "1.4e-45", "7e-46", "7.1e-46",
               "16777217", "16777217.0", "9007199254740993", "0.1", "0.30000000000000004", "123456789012345678901234567890", "1.00000000000000011102230246251565404236316680908203125",
               "1.5", "2.5", "1e0", "1E+0", "1e-0", "+1.5e+3", "-1.5E-3", "5e-1", ".5", "5."] {
